@@ -75,3 +75,7 @@ claim("C08",
       "Ghost allocation counter over make/append in the real CBE decoder: for every length-carrying header with symbolic length fields and a symbolic MaxArraySizeBytes in [1,4096], z3 shows no single request and no path total exceeds 64*len(document) + 2*MaxArraySizeBytes + 1 MiB, rules on and off.",
       "Bound constants chosen generously (DESIGN.md §5 C08). Decoding time and the CTE decoder are outside reach. Memory = bytes requested through make/append (engine ghost state).",
       "DESIGN.md §5 C08")
+claim("C09",
+      "Encoder-produced CBE documents (9 templates, symbolic payload) and raw accepted documents of 3..4 fully symbolic bytes (5 thorough) are cut at every position; z3 shows the decoder+validator reject every proper prefix.",
+      "Outside: 'partial result is a prefix of the full value' (builders/reflection) and CTE. Raw documents containing the padding code are excluded (a cut before trailing padding leaves a complete document).",
+      "DESIGN.md §5 C09")
